@@ -25,6 +25,7 @@ import json
 import logging
 import os
 import random
+import re
 import shutil
 import time
 from concurrent.futures import ThreadPoolExecutor
@@ -38,6 +39,14 @@ from ..vloop import StepLoop
 PID = "C10"
 FAR = 500.0          # cache timers are far below this, the task manager's own checker (900 s) far above
 _CLS = {}
+
+
+class HandlerFault(ValueError):
+    """What a scripted handler body raises ("the remainder of the handler fails")."""
+
+
+class HandlerKeyFault(KeyError):
+    """... the same, as a KeyError (the one exception type retrieve_cache itself looks at)."""
 
 
 class Divergence(Exception):
@@ -76,15 +85,36 @@ def classes():
     class B(Base):
         pass
 
-    class Overlay:
-        def __init__(self, rc):
-            self.request_cache = rc
-            self.logger = logging.getLogger("c10-overlay")
-            self.got = None
+    def make_overlay(deco):
+        class Overlay:
+            def __init__(self, world):
+                self.world = world
+                self.request_cache = world.rc
+                self.logger = logging.getLogger("c10-overlay")
 
-        @retrieve_cache(Base)
-        def on_response(self, peer, payload, cache):
-            self.got = cache
+            @deco(Base)
+            def on_response(self, peer, payload, cache):
+                return self.world.handler_entered(cache, payload)
+
+            @deco(Base)
+            async def on_response_co(self, peer, payload, cache):
+                return self.world.handler_body(cache)
+
+        return Overlay
+
+    def peek_cache(cache_class):
+        """A matching helper that looks the cache up, runs the handler and releases the identifier afterwards
+        (negative control: what the property forbids - the claim must precede the handler body)."""
+        def decorator(func):
+            def wrapper(self, peer, *payloads):
+                cache = self.request_cache.get(cache_class.name, payloads[-1].identifier)
+                if cache is None:
+                    return None
+                result = func(self, peer, *payloads, cache=cache)
+                self.request_cache.pop(cache_class.name, payloads[-1].identifier)
+                return result
+            return wrapper
+        return decorator
 
     class NoCancelRC(RequestCache):
         """pop() forgets to cancel the time-out task (what the property forbids)."""
@@ -92,7 +122,8 @@ def classes():
         def pop(self, prefix, number):
             return self._identifiers.pop(self._create_identifier(number, prefix))
 
-    _CLS.update(A=A, B=B, Base=Base, Overlay=Overlay, RequestCache=RequestCache, NoCancelRC=NoCancelRC)
+    _CLS.update(A=A, B=B, Base=Base, Overlay=make_overlay(retrieve_cache), PeekOverlay=make_overlay(peek_cache),
+                RequestCache=RequestCache, NoCancelRC=NoCancelRC)
     return _CLS
 
 
@@ -108,7 +139,7 @@ def task_of(h):
 class World:
     """One real RequestCache with n test caches inside a StepLoop."""
 
-    def __init__(self, loop, ident, futk, cls, ni, rc_class=None):
+    def __init__(self, loop, ident, futk, cls, ni, rc_class=None, overlay_class=None):
         k = classes()
         self.loop = loop
         self.n = len(ident)
@@ -116,10 +147,12 @@ class World:
         self.errors = []
         loop.set_exception_handler(lambda _l, c: self.errors.append(c))
         self.in_handle = False
+        self.depth = 0
+        self.rlevel = 0
         self.rc = loop.call(rc_class or k["RequestCache"])
         self.checker = self.rc.get_task("_check_tasks")
         loop.drain()                       # the task manager's own checker task starts sleeping (900 s)
-        self.overlay = k["Overlay"](self.rc)
+        self.overlay = (overlay_class or k["Overlay"])(self)
         self.cache, self.futs, self.exc, self.ext = {}, {}, {}, {}
         for cid in range(1, self.n + 1):
             c = k[cls[cid - 1]](self, cid, ident[cid - 1])   # built while nothing is registered: the constructor guard passes
@@ -136,6 +169,11 @@ class World:
         self.tasks = {cid: [] for cid in self.cache}
         self.timer = {}                    # task -> TimerHandle of its sleep()
         self.nT = dict.fromkeys(self.cache, 0)
+        self.nC = dict.fromkeys(self.cache, 0)   # how often the object was handed out (pop() result / handler argument)
+        self.got = None                    # cache the last handler invocation received
+        self.hscript = None                # what the body of the next handler invocation does
+        self.hnested = None                # (cid, op, result) of that body
+        self.co = None                     # (coroutine, cid): matched coroutine handler whose body has not run
         self.added = set()
         self.script = {}
         self.nested = None                 # (cid, op, result) of the last on_timeout callback
@@ -145,10 +183,14 @@ class World:
     # ---------------------------------------------------------------- plumbing
     def _call(self, fn, *a, **kw):
         try:
-            if self.in_handle:
+            if self.in_handle or self.depth:
                 return fn(*a, **kw)
-            return self.loop.call(fn, *a, **kw)
-        except (KeyError, Divergence, MachineryError):
+            self.depth += 1
+            try:
+                return self.loop.call(fn, *a, **kw)
+            finally:
+                self.depth -= 1
+        except (KeyError, Divergence, MachineryError, HandlerFault):
             raise
         except Exception as e:  # noqa: BLE001 - the real code raised where the specification has a defined outcome
             name = getattr(fn, "__name__", str(fn))
@@ -196,7 +238,8 @@ class World:
         if r is not None and r is not c:
             raise Divergence("add-result", "add() returned a different object")
         if r is c or first:
-            self.nT[cid] = 0               # on_timeout calls are counted per registration
+            self.nT[cid] = 0               # on_timeout calls / claims are counted per registration
+            self.nC[cid] = 0
         for h in self.loop._ready:
             if id(h) not in before:
                 t = task_of(h)
@@ -222,15 +265,93 @@ class World:
 
     def pop(self, i, via="pop"):
         if via == "handler":
-            self.overlay.got = None
-            self._call(self.overlay.on_response, None, SimpleNamespace(identifier=i))
-            c = self.overlay.got
-            return 0 if c is None else c.cid
+            return self.respond(i, None)
         try:
             c = self._call(self.rc.pop, "p", i)
         except KeyError:
             return 0
+        self.nC[c.cid] += 1
         return c.cid
+
+    # ---------------------------------------------------------------- the response path (retrieve_cache handlers)
+    def respond(self, i, op):
+        """A response with identifier i is dispatched to the plain handler, whose body does `op`.
+        -> cid the handler was called with (0: not called)."""
+        saved = (self.got, self.hnested)   # a response may be dispatched from inside a handler body / on_timeout
+        self.got, self.hscript, self.hnested = None, op, None
+        self.rlevel += 1
+        try:
+            self._call(self.overlay.on_response, None, SimpleNamespace(identifier=i))
+        except (HandlerFault, HandlerKeyFault):
+            pass                           # the body's own failure; whether it propagates is not our concern
+        except KeyError as e:
+            raise Divergence("wrapper-keyerror", "the retrieve_cache wrapper raised %r although the handler body did "
+                                                 "not (response %d, body %s)" % (e, i, op)) from e
+        finally:
+            self.hscript = None
+            self.rlevel -= 1
+        c = self.got
+        if self.rlevel:
+            self.got, self.hnested = saved
+        else:
+            self.got = None
+        return 0 if c is None else c.cid
+
+    def handler_entered(self, cache, payload):
+        self.got = cache
+        self.nC[cache.cid] += 1
+        return self.handler_body(cache)
+
+    def handler_body(self, cache):
+        op, self.hscript = self.hscript, None
+        if op is None or op[0] == "none":
+            return
+        cid = cache.cid
+        self.hnested = (cid, op, None)
+        if op[0] == "raise":
+            raise (HandlerKeyFault if (cid + len(self.added)) % 2 else HandlerFault)("the remainder of the handler fails")
+        if op[0] == "pop":
+            res = self.pop(op[1], via="handler" if (op[1] + cid) % 2 else "pop")
+        elif op[0] == "add":
+            res = self.add(self.next_new(), op[1])
+        else:
+            raise MachineryError("unknown handler script %r" % (op,))
+        self.hnested = (cid, op, res)
+
+    def respond_co(self, i):
+        """... dispatched to the coroutine handler: the wrapper runs now, the body later (run_body)."""
+        if self.co is not None:
+            raise MachineryError("a coroutine handler is already pending")
+        try:
+            co = self._call(self.overlay.on_response_co, None, SimpleNamespace(identifier=i))
+        except KeyError as e:
+            raise Divergence("wrapper-keyerror", "the retrieve_cache wrapper raised %r (response %d)" % (e, i)) from e
+        if co is None:
+            return 0
+        c = co.cr_frame.f_locals.get("cache")
+        if c is None:
+            co.close()
+            raise Divergence("no-cache", "the coroutine handler was called without a cache")
+        self.co = (co, c.cid)
+        self.nC[c.cid] += 1                # handed out when it was matched
+        return c.cid
+
+    def run_body(self, op):
+        co, cid = self.co
+        self.co = None
+        self.hscript, self.hnested = op, None
+
+        def go():
+            try:
+                co.send(None)
+            except StopIteration:
+                return
+            raise MachineryError("the test coroutine handler suspended")
+        try:
+            self._call(go)
+        finally:
+            self.hscript = None
+        return cid
 
     def next_new(self):
         for cid in range(1, self.n + 1):
@@ -344,6 +465,7 @@ class World:
                 raise Divergence("has-get", "has() and get() disagree on identity %d" % i)
             table.append(0 if c is None else c.cid)
         return {"table": tuple(table), "nT": tuple(self.nT[c] for c in sorted(self.cache)),
+                "nC": tuple(self.nC[c] for c in sorted(self.cache)),
                 "fut": tuple(self.fut_state(c) for c in sorted(self.cache))}
 
     def check_errors(self):
@@ -354,6 +476,8 @@ class World:
     def runout(self):
         """No more responses: the loop just runs on (FIFO, timers in deadline order)."""
         self.script.clear()
+        if self.co is not None:
+            self.run_body(None)
         for _ in range(100000):
             self.in_handle = True
             try:
@@ -369,6 +493,9 @@ class World:
     def close(self):
         loop = self.loop
         loop.set_exception_handler(lambda _l, _c: None)
+        if self.co is not None:
+            self.co[0].close()
+            self.co = None
         for f in self.futs.values():
             if f.done() and not f.cancelled():
                 f.exception()
@@ -402,6 +529,8 @@ def compare(spec, proj):
             continue
         if spec["nT"][idx] != proj["nT"][idx]:
             d["nT[%d]" % (idx + 1)] = {"spec": spec["nT"][idx], "impl": proj["nT"][idx]}
+        if "nC" in spec and spec["nC"][idx] != proj["nC"][idx]:
+            d["nC[%d]" % (idx + 1)] = {"spec": spec["nC"][idx], "impl": proj["nC"][idx]}
         if spec["fut"][idx] != proj["fut"][idx]:
             d["fut[%d]" % (idx + 1)] = {"spec": spec["fut"][idx], "impl": proj["fut"][idx]}
     return d
@@ -414,7 +543,7 @@ def expected_runout(spec):
             nT[i] += 1
             if fut[i] == "pending":
                 fut[i] = "exception" if futk[i] == "exc" else "result"
-    return {"table": tuple(0 for _ in spec["table"]), "st": st, "nT": tuple(nT), "fut": tuple(fut)}
+    return {"table": tuple(0 for _ in spec["table"]), "st": st, "nT": tuple(nT), "fut": tuple(fut), "nC": spec["nC"]}
 
 
 def apply_action(w, name, args, pre, post, rng):
@@ -432,6 +561,46 @@ def apply_action(w, name, args, pre, post, rng):
         exp = pre["table"][i - 1]
         if res != exp:
             return {"pop(%d) via %s" % (i, via): {"spec": exp or "KeyError", "impl": res or "KeyError"}}
+    elif name == "Respond":
+        i, k, a = args
+        res = w.respond(i, (k, a))
+        exp = pre["table"][i - 1]
+        if res != exp:
+            return {"handler of response(%d)" % i: {"spec": ("called with cache %d" % exp) if exp else "not called",
+                                                    "impl": ("called with cache %d" % res) if res else "not called"}}
+        if k in ("pop", "add"):
+            if w.hnested is None or w.hnested[2] is None:
+                raise MachineryError("scripted handler body did not run")
+            if k == "pop":
+                exp = 0 if a == i else pre["table"][a - 1]      # its own identity was released before the body ran
+            else:
+                nxt = min(j + 1 for j, s in enumerate(pre["st"]) if s == "new")
+                exp = 1 if post["st"][nxt - 1] == "outstanding" else 0
+            if w.hnested[2] != exp:
+                return {"nested %s(%d) in the handler of response(%d)" % (k, a, i): {"spec": exp, "impl": w.hnested[2]}}
+    elif name == "RespondCo":
+        i = args[0]
+        res = w.respond_co(i)
+        exp = pre["table"][i - 1]
+        if res != exp:
+            return {"coroutine handler of response(%d)" % i: {"spec": exp or "not called", "impl": res or "not called"}}
+    elif name == "HandlerBody":
+        k, a = args
+        if w.co is None:
+            raise Divergence("no-handler", "no coroutine handler is pending")
+        cid = w.run_body((k, a))
+        if cid != pre["hpend"]:
+            return {"body of the coroutine handler": {"spec": "cache %d" % pre["hpend"], "impl": "cache %d" % cid}}
+        if k != "none":
+            if w.hnested is None or w.hnested[2] is None:
+                raise MachineryError("scripted handler body did not run")
+            if k == "pop":
+                exp = pre["table"][a - 1]
+            else:
+                nxt = min(j + 1 for j, s in enumerate(pre["st"]) if s == "new")
+                exp = 1 if post["st"][nxt - 1] == "outstanding" else 0
+            if w.hnested[2] != exp:
+                return {"nested %s(%d) in the coroutine handler body" % (k, a): {"spec": exp, "impl": w.hnested[2]}}
     elif name in ("TaskStart", "TaskWake"):
         c, k, a = args
         w.step(c, (k, a))
@@ -468,9 +637,9 @@ def apply_action(w, name, args, pre, post, rng):
     return None
 
 
-def run_behaviour(loop, st0, steps, rng, ni, rc_class=None):
+def run_behaviour(loop, st0, steps, rng, ni, rc_class=None, overlay_class=None):
     """steps: [(name, args, post_state)].  Returns (None | (signature, description, detail), operations executed)."""
-    w = World(loop, st0["ident"], st0["futk"], st0["cls"], ni, rc_class)
+    w = World(loop, st0["ident"], st0["futk"], st0["cls"], ni, rc_class, overlay_class)
     labels = []
     n = 0
     try:
@@ -580,7 +749,7 @@ def tag_sig(v, labels):
     return v
 
 
-def replay_graph(ctx, loop, dumped, cfg, ni, tag, max_ops, rng, rc_class=None, record=True):
+def replay_graph(ctx, loop, dumped, cfg, ni, tag, max_ops, rng, rc_class=None, record=True, overlay_class=None):
     r, g = dumped
     if record:
         ctx.add_tlc(tag, r)
@@ -591,7 +760,7 @@ def replay_graph(ctx, loop, dumped, cfg, ni, tag, max_ops, rng, rc_class=None, r
     for init, walk in cover_walks(g, seed=ctx.seed, max_ops=max_ops):
         st0 = g.states[init]
         steps = [(g.edges[e][1], g.edges[e][2], g.states[g.edges[e][3]]) for e in walk]
-        v, n = run_behaviour(loop, st0, steps, rng, ni, rc_class)
+        v, n = run_behaviour(loop, st0, steps, rng, ni, rc_class, overlay_class)
         nops += n
         nwalks += 1
         covered.update(walk)
@@ -656,8 +825,13 @@ def replay_simulation(ctx, loop, behaviours, cfg, ni, tag, rng):
     return found
 
 
-ALL_ACTIONS = {"Add", "ReAdd", "Pop", "TaskStart", "Tick", "TimerFire", "TaskWake", "Reap", "ReapOld", "Clear", "Shutdown",
+CO_ACTIONS = {"RespondCo", "HandlerBody"}
+ALL_ACTIONS = {"Add", "ReAdd", "Pop", "Respond", "TaskStart", "Tick", "TimerFire", "TaskWake", "Reap", "ReapOld", "Clear", "Shutdown",
                "PassEnter", "PassExit", "FutExt"}
+
+
+H2_ACTIONS = {"Add", "Pop", "Respond", "RespondCo", "HandlerBody", "TaskStart", "Tick", "TimerFire", "TaskWake", "Reap",
+              "Clear", "Shutdown"}
 
 
 def check_coverage(r, cfg, expect=None):
@@ -687,7 +861,7 @@ def record_trace(loop, rng, n, readd=True):
         w.background()
         w.check_errors()
         p = w.project()
-        ev.update(table=list(p["table"]), nT=list(p["nT"]), fut=list(p["fut"]))
+        ev.update(table=list(p["table"]), nT=list(p["nT"]), fut=list(p["fut"]), nC=list(p["nC"]))
         events.append(ev)
 
     def nested_choice():
@@ -699,6 +873,59 @@ def record_trace(loop, rng, n, readd=True):
         if len(w.added) < n:
             return ("add", rng.choice(T_DELAYS))
         return ("none", 0)
+
+    def handler_choice():
+        x = rng.random()
+        if x < 0.35:
+            return ("none", 0)
+        if x < 0.65:
+            return ("raise", 0)
+        if x < 0.85:
+            return ("pop", rng.randint(1, T_NI))
+        if len(w.added) < n:
+            return ("add", rng.choice(T_DELAYS))
+        return ("raise", 0)
+
+    def pick_ident():
+        present = [k for k in range(1, T_NI + 1) if w.rc.has("p", k)]
+        return rng.choice(present) if present and rng.random() < 0.6 else rng.randint(1, T_NI)
+
+    def note_nested(hn):
+        """-> (kind, arg, result) of what a handler body did; remembers which request it claimed."""
+        if hn is None or hn[1][0] not in ("pop", "add"):
+            return ("none", 0, 0) if hn is None else (hn[1][0], hn[1][1], 0)
+        if hn[2] is None:
+            raise MachineryError("scripted handler body did not finish")
+        if hn[1][0] == "pop" and hn[2]:
+            ended[hn[2]] = "claimed"
+        return hn[1][0], hn[1][1], hn[2]
+
+    def response():
+        """A response goes through a retrieve_cache handler: a plain one with a scripted body, or a coroutine
+        handler (matched now, body run by a later event)."""
+        if w.co is not None and rng.random() < 0.5:
+            return body()
+        i = pick_ident()
+        if w.co is None and rng.random() < 0.3:
+            res = w.respond_co(i)
+            if res:
+                ended[res] = "claimed"
+            log({"op": "respco", "i": i, "res": res})
+            return
+        op = handler_choice()
+        res = w.respond(i, op)
+        if res:
+            ended[res] = "claimed"
+            hk, ha, nres = note_nested(w.hnested) if op[0] != "none" else ("none", 0, 0)
+        else:
+            hk, ha, nres = "none", 0, 0
+        log({"op": "resp", "i": i, "hk": hk, "ha": ha, "res": res, "nres": nres})
+
+    def body():
+        op = nested_choice()
+        cid = w.run_body(op)
+        nk, na, nres = note_nested(w.hnested) if op[0] != "none" else ("none", 0, 0)
+        log({"op": "hbody", "c": cid, "nk": nk, "na": na, "nres": nres})
 
     def run_head():
         """asyncio order: the oldest queued handle of a cache task runs next."""
@@ -758,9 +985,10 @@ def record_trace(loop, rng, n, readd=True):
                 d = rng.choice(T_DELAYS)
                 res = w.add(cid, d)
                 log({"op": "add", "c": cid, "d": d, "res": res})
+            elif x < 0.26:
+                response()
             elif x < 0.32:
-                present = [k for k in range(1, T_NI + 1) if w.rc.has("p", k)]
-                i = rng.choice(present) if present and rng.random() < 0.6 else rng.randint(1, T_NI)
+                i = pick_ident()
                 res = w.pop(i, "handler" if rng.random() < 0.5 else "pop")
                 if res:
                     ended[res] = "claimed"
@@ -808,6 +1036,10 @@ def record_trace(loop, rng, n, readd=True):
                 w.shutdown()
                 state["shutdown"] = True
                 log({"op": "shutdown"})
+            elif x >= 0.975:
+                response()
+        if w.co is not None:
+            body()
         # run-out, logged: every step must still be a step of the specification
         for _ in range(100000):
             if run_head():
@@ -839,17 +1071,29 @@ def record_traces(ctx, loop, rng, count):
     return out
 
 
-def tlc_traces(traces):
+def tlc_traces(traces, continue_=False):
     """TLC validation of a batch of recorded executions (run in a worker thread)."""
     tmp = scratch_dir("c10t-")
     try:
         path = os.path.join(tmp, "traces.json")
         with open(path, "w", encoding="utf-8") as f:
             json.dump(traces, f)
+        # ENABLED is evaluated with one Java frame per conjunct of ObsOk (3 per cache, 50 caches): deeper thread stacks
         return run_tlc("RequestCacheTrace.tla", "RequestCacheTrace.cfg", env={"TRACE_FILE": path}, coverage=False,
-                       workers=4)
+                       workers=4, java_opts=("-Xss64m",), continue_=continue_)
     finally:
         shutil.rmtree(tmp, ignore_errors=True)
+
+
+def rejected_traces(r):
+    """Ids of the traces that TLC (run with -continue: every violation is reported) rejected with TraceAccepted."""
+    out = set()
+    for part in r.output.split("Error: Invariant ")[1:]:
+        if part.startswith("TraceAccepted is violated"):
+            m = re.search(r"/\\ tid = (\d+)", part)
+            if m:
+                out.add(int(m.group(1)))
+    return out
 
 
 def judge_traces(ctx, traces, r, tag):
@@ -861,7 +1105,8 @@ def judge_traces(ctx, traces, r, tag):
         ev = bad["events"][l - 1] if bad and isinstance(l, int) and l <= len(bad["events"]) else None
         n = bad["n"] if bad else 0
         spec_view = {k: list(last.get(k, ()))[:n] if k != "table" else list(last.get(k, ()))
-                     for k in ("st", "task", "table", "nT", "fut", "tracked", "zombie")}
+                     for k in ("st", "task", "table", "nT", "nC", "fut", "tracked", "zombie")}
+        spec_view["hpend"] = last.get("hpend")
         short = None
         readd = False
         if bad:
@@ -901,7 +1146,44 @@ def corrupt(trace, how):
             if e["op"] == "step" and e["nT"][e["c"] - 1] == 1 and (k == 0 or evs[k - 1]["nT"][e["c"] - 1] == 0):
                 evs.insert(k + 1, dict(e, op="pop", i=t["ident"][e["c"] - 1], res=e["c"]))
                 return t
+    elif how == "claimed-stays":
+        # the handler of a response was called with the cache, yet the request is still registered afterwards
+        for e in evs:
+            if e["op"] == "resp" and e["res"] and e["hk"] in ("none", "raise"):
+                e["table"][e["i"] - 1] = e["res"]
+                return t
+    elif how == "double-claim":
+        # a retransmitted response is matched with the same request a second time
+        for k, e in enumerate(evs):
+            if e["op"] == "resp" and e["res"] and e["hk"] in ("none", "raise"):
+                e2 = json.loads(json.dumps(e))
+                e2["nC"][e["res"] - 1] += 1
+                evs.insert(k + 1, e2)
+                return t
+    elif how == "claim-at-body":
+        # a coroutine handler was matched, but the request is only released when its body runs
+        for k, e in enumerate(evs):
+            if e["op"] == "respco" and e["res"]:
+                for e2 in evs[k:]:
+                    if e2["op"] == "hbody":
+                        break
+                    e2["table"][e["i"] - 1] = e["res"]
+                return t
     raise MachineryError("cannot build corrupted trace %r" % how)
+
+
+CORRUPTIONS = ("late-timeout", "drop-pop", "response-after-timeout", "claimed-stays", "double-claim", "claim-at-body")
+
+
+def corruptible_trace(loop, seed):
+    """A recorded execution of 12 caches on which every corruption can be built."""
+    for k in range(1, 40):
+        base = record_trace(loop, random.Random(seed + k), 12)
+        try:
+            return base, [(how, corrupt(base, how)) for how in CORRUPTIONS]
+        except MachineryError:
+            continue
+    raise MachineryError("no recorded execution contains the events the trace controls need")
 
 
 # ---------------------------------------------------------------------------------------------------
@@ -957,7 +1239,7 @@ def run(tier, seed, replay=None):
     rng = random.Random(seed)
     loop = StepLoop()
     asyncio.set_event_loop(loop)
-    pool = ThreadPoolExecutor(max_workers=6)
+    pool = ThreadPoolExecutor(max_workers=8)
     try:
         if replay:
             replay_file(loop, replay)
@@ -966,19 +1248,23 @@ def run(tier, seed, replay=None):
         def mc(cfg, **kw):
             return pool.submit(run_tlc, "RequestCache.tla", "RequestCache_%s.cfg" % cfg, **kw)
 
-        # ---- every TLC job is started now; the replays below consume them as they finish
+        # ---- every TLC job is started now (the longest first); the replays below consume them as they finish
+        if quick:
+            checks = [("q3", mc("q3", workers=8), ALL_ACTIONS - {"FutExt"})]
+            graphs = [("q2", pool.submit(dump_graph, "RequestCache_q2.cfg"), None)]
+        j_ctl = pool.submit(dump_graph, "RequestCache_ctl_small.cfg")
         j_pin = mc("ctl_pinned", coverage=False, workers=2)
         j_nlc = mc("ctl_nolatecancel", coverage=False, workers=2)
-        j_ctl = pool.submit(dump_graph, "RequestCache_ctl_small.cfg")
+        j_peek = mc("ctl_peek", coverage=False, workers=2)
         if quick:
-            graphs = [("q2", pool.submit(dump_graph, "RequestCache_q2.cfg"), None)]
-            checks = [("q3", mc("q3", workers=8), ALL_ACTIONS - {"FutExt"})]
+            graphs.insert(0, ("h2", pool.submit(dump_graph, "RequestCache_h2.cfg"), None))
             sims = [("n3", pool.submit(simulate, "RequestCache_n3.cfg", 1600, 40, seed + 7))]
             ntr = 40
         else:
-            graphs = [("n2", pool.submit(dump_graph, "RequestCache_n2.cfg"), None),
+            graphs = [("h2", pool.submit(dump_graph, "RequestCache_h2.cfg"), None),
+                      ("n2", pool.submit(dump_graph, "RequestCache_n2.cfg"), None),
                       ("r3", pool.submit(dump_graph, "RequestCache_r3.cfg"), 1000000)]
-            checks = [("n3", mc("n3", workers=8), ALL_ACTIONS),
+            checks = [("n3", mc("n3", workers=8), ALL_ACTIONS | CO_ACTIONS),
                       ("n4", mc("n4", workers=12, coverage=False, timeout=7200), None)]
             sims = [("n3", pool.submit(simulate, "RequestCache_n3.cfg", 8000, 45, seed + 7)),
                     ("n4", pool.submit(simulate, "RequestCache_n4.cfg", 8000, 50, seed + 8))]
@@ -990,9 +1276,8 @@ def run(tier, seed, replay=None):
                 for k in range(0, len(traces), 100)]
         base = None
         if not ctx.violations:
-            base = record_trace(loop, random.Random(seed + 1), 12)
-            j_bad = [(how, pool.submit(tlc_traces, [corrupt(base, how)]))
-                     for how in ("late-timeout", "drop-pop", "response-after-timeout")]
+            base, bad_traces = corruptible_trace(loop, seed)
+            j_bad = pool.submit(tlc_traces, [t for _how, t in bad_traces], True)    # one TLC run judges them all
 
         # ---- negative controls on the specification
         ctx.control("spec with the pinned done_cb (forgets whatever task carries the name) violates NoTimeoutAfterClaim",
@@ -1003,12 +1288,18 @@ def run(tier, seed, replay=None):
         bad = replay_graph(ctx, loop, j_ctl.result(), "RequestCache_ctl_small.cfg", 2, "ctl", 20000, random.Random(seed),
                            rc_class=classes()["NoCancelRC"], record=False)
         ctx.control("replay flags a RequestCache whose pop() leaves the time-out task running", bool(bad))
+        ctx.control("spec in which retrieve_cache releases the identifier only after the handler returned (never when "
+                    "it raised) violates NoTimeoutAfterClaim", j_peek.result().violated == "NoTimeoutAfterClaim")
+        bad = replay_graph(ctx, loop, j_ctl.result(), "RequestCache_ctl_small.cfg", 2, "ctl", 20000, random.Random(seed),
+                           overlay_class=classes()["PeekOverlay"], record=False)
+        ctx.control("replay flags a matching helper that claims the cache only after the handler body has run", bool(bad))
 
         # ---- replay of the state graphs and of simulated behaviours
         found = []
         for tag, job, max_ops in graphs:
             dumped = job.result()
-            check_coverage(dumped[0], tag, ALL_ACTIONS - ({"FutExt"} if tag in ("q2", "r3") else set()))
+            check_coverage(dumped[0], tag, H2_ACTIONS if tag == "h2" else
+                           (ALL_ACTIONS - {"FutExt"}) if tag in ("q2", "r3") else ALL_ACTIONS | CO_ACTIONS)
             if not found:
                 found += replay_graph(ctx, loop, dumped, "RequestCache_%s.cfg" % tag, 2, tag, max_ops, rng)
         for tag, job in sims:
@@ -1036,8 +1327,9 @@ def run(tier, seed, replay=None):
                                       "largest_population": max(t["n"] for t in traces)})
             ctx.sample({"recorded_execution": {"n": traces[0]["n"], "first_events": traces[0]["events"][:4]}})
         if base is not None and not ctx.violations:
-            for how, job in j_bad:
-                ctx.control("trace corrupted by '%s' is rejected" % how, job.result().violated == "TraceAccepted")
+            rejected = rejected_traces(j_bad.result())
+            for k, (how, _t) in enumerate(bad_traces):
+                ctx.control("trace corrupted by '%s' is rejected" % how, (k + 1) in rejected)
     finally:
         pool.shutdown(wait=True, cancel_futures=True)
         asyncio.set_event_loop(None)
